@@ -29,6 +29,17 @@ ALPHA = ["a", " ", ";", "&", "|", "'", '"', "\\", "#", "`"]
 
 
 SPECIAL = {"assign": 0, "cdfail": 1, "nf": 127}
+BG_MS, SLOW_MS = 150, 500
+
+
+def st_value(st):
+    """exit status of an element: int, ("slow", n) = helper that sleeps SLOW_MS first, "bg" = helper started
+    in the background (`... &`: the list goes on at once with status 0), or a SPECIAL non-helper pipeline."""
+    if isinstance(st, tuple):
+        return st[1]
+    if st == "bg":
+        return 0
+    return SPECIAL.get(st, st)
 
 
 def ref_exec(prog):
@@ -42,7 +53,7 @@ def ref_exec(prog):
         run = op == ";" or (op == "&&" and status == 0) or (op == "||" and status != 0)
         if run:
             ran.append((m, status, st))
-            status = status if st is None else SPECIAL.get(st, st)
+            status = status if st is None else st_value(st)
     return ran, status
 
 
@@ -62,7 +73,10 @@ def render(prog, hp, rng, decoys):
         if st == "nf":
             parts.append("nosuchcmd_zz")
             continue
-        ctl = "@x$?" if st is None else "@x%d" % st
+        if st == "bg":
+            parts.append("%s @s%d %s &" % (hp, BG_MS, m))
+            continue
+        ctl = "@x$?" if st is None else ("@s%d,x%d" % (SLOW_MS, st[1]) if isinstance(st, tuple) else "@x%d" % st)
         seg = "%s %s %s" % (hp, ctl, m)
         if decoys:
             d = rng.choice(["", " ';'", ' "&&"', " '||'", " \\;", " \\&\\&", ' "a;b"', " 'x && y'", " a\\|\\|b", ' "#"',
@@ -89,6 +103,15 @@ def gen_programs(ctx):
                 progs.append([(";", st0, "m0"), (op, sp, "m1"), (";", None, "m2")])
                 progs.append([(";", st0, "m0"), (op, sp, "m1")])
                 progs.append([(";", st0, "m0"), (op, sp, "m1"), ("&&", None, "m2"), ("||", None, "m3")])
+    # a background pipeline earlier in the list that ENDS while a later foreground pipeline is still running:
+    # the foreground pipeline's own status must decide the following operator, $? and the exit status
+    for n in ((3, 5) if not ctx.thorough else (1, 3, 5, 42)):
+        for op in ("&&", "||"):
+            progs.append([(";", "bg", "m0"), (";", ("slow", n), "m1"), (op, 0, "m2"), (";", None, "m3")])
+            progs.append([(";", "bg", "m0"), (";", ("slow", n), "m1")])
+            progs.append([(";", 7, "m0"), (";", "bg", "m1"), (op, ("slow", n), "m2"), (op, 0, "m3"), (";", None, "m4")])
+        progs.append([(";", "bg", "m0"), (";", "bg", "m1"), (";", ("slow", n), "m2"), ("&&", 0, "m3"), ("||", None, "m4")])
+        progs.append([(";", "bg", "m0"), (";", ("slow", 0), "m1"), ("&&", ("slow", n), "m2"), ("||", None, "m3")])
     nrand = 600 if ctx.thorough else 120
     for _ in range(nrand):
         k = rng.randint(2, 12)
@@ -187,6 +210,8 @@ def run(ctx, res):
             # the script path re-renders every line (tokens_to_line), which is C16's subject:
             # scripts get the decoy-free renderings only
             mode = "script" if (ix % 4 == 3 and ix % 3 != 2) else "c"
+            if any(c[1] == "bg" for c in p):
+                mode = "script" if (ix % 2 and ix % 3 != 2) else "c"
             d = os.path.join(work, "w%d" % ix)
             os.makedirs(d)
             tr = os.path.join(d, "trace")
@@ -203,15 +228,22 @@ def run(ctx, res):
             p, line = progs[ix], lines[ix]
             exp_ran, exp_status = ref_exec(p)
             got = []
+            bg_exp = sorted(m for (m, prev, st_) in exp_ran if st_ == "bg")
+            bg_got = []
             for r in recs:
                 a = r["argv"]
+                if len(a) > 2 and a[2] in bg_exp and a[1] == "@s%d" % BG_MS:
+                    bg_got.append(a[2])     # a background helper: started, but its record may land late
+                    continue
                 got.append((a[2] if len(a) > 2 else "?", a[1] if len(a) > 1 else "?"))
+            if sorted(bg_got) != bg_exp:
+                got.append(("background helpers", repr(sorted(bg_got))))
             # expected helper view: marker, control word after $? expansion
             exp = []
             for (m, prev, st_) in exp_ran:
-                if st_ in SPECIAL:
-                    continue        # not a helper: leaves no trace record, only a status
-                ctl = "@x%d" % (prev if st_ is None else st_)
+                if st_ == "bg" or (not isinstance(st_, tuple) and st_ in SPECIAL):
+                    continue        # not a (foreground) helper: no ordered trace record, only a status
+                ctl = "@s%d,x%d" % (SLOW_MS, st_[1]) if isinstance(st_, tuple) else "@x%d" % (prev if st_ is None else st_)
                 exp.append((m, ctl))
             impl_obs = "ran=%r status=%r" % (got, rc)
             ref_obs = "ran=%r status=%r" % (exp, exp_status)
